@@ -465,6 +465,7 @@ def tie_c(prop, cases, seed, tier):
     out, problems = {}, []
     with concurrent.futures.ThreadPoolExecutor(max_workers=10) as ex:
         futs = {ex.submit(diag.run, c, cases): ('rejected', c) for c in cfgs}
+        futs.update({ex.submit(diag.run_non_adt, c): ('non_adt', c) for c in cfgs})
         if prop == 'C16':
             futs.update({ex.submit(diag.run_soups, c, seed, n_soup): ('soups', c) for c in cfgs})
         for f in concurrent.futures.as_completed(futs):
@@ -479,6 +480,7 @@ def tie_c(prop, cases, seed, tier):
     stats = dict(rejected_items_checked=sum(s['checked'] for s in out['rejected'].values()),
                  ill_posed_discarded=sum(s['ill_posed'] for s in out['rejected'].values()),
                  errors_seen=sum(s['errors_seen'] for s in out['rejected'].values()),
+                 non_adt_items=sum(s['items'] for s in out.get('non_adt', {}).values()),
                  soups=sum(s['soups'] for s in out.get('soups', {}).values()),
                  soups_accepted=sum(s['accepted_without_error'] for s in out.get('soups', {}).values()),
                  per_cfg={k: {c: {a: b for a, b in s.items() if not a.startswith('_')} for c, s in v.items()} for k, v in out.items()},
